@@ -214,7 +214,7 @@ Definition compile_sfield (u : univ) (o : sopts) (cd : cdef) (f : fdef) : sfield
     FComplex (CFld (fd_name f) alias m td (fd_required f) eu (fs_skip_if (fd_ser f))
                  (fs_undefined (fd_ser f) || match dflt with Some VUndefined => true | _ => false end)
                  ((ty_has_none (fd_ty f) && so_excl_none o) || fs_none_undef (fd_ser f)
-                  || (match dflt with Some VNone => true | _ => false end && so_excl_defaults o))
+                  || (match dflt with Some VNone => true | _ => false end && (fs_skip_default (fd_ser f) || so_excl_defaults o)))
                  ((fs_skip_default (fd_ser f) || so_excl_defaults o)
                   && match dflt with Some VNone | Some VUndefined | None => false | Some _ => true end)
                  dflt)
